@@ -437,7 +437,10 @@ func init() {
 		if oneErr == nil && !bytes.HasPrefix(one, flat) {
 			fs = append(fs, Failure{Kind: "oracle", Key: "armor-stream-delivers-other-bytes", Desc: fmt.Sprintf("the stream delivered %d bytes that are not a prefix of the %d bytes the same text dearmors to", len(flat), len(one))})
 		}
-		if endErr == io.EOF && (oneErr != nil || srcErr != io.EOF || !bytes.Equal(flat, one)) {
+		// (without checkers the stream does not look at the characters of the frame sentences, which the
+		// one-shot form checks afterwards through Frame.GetHeader/GetFooter: theorem C13_armor_stream_clean_end)
+		uncheckedFrame := hc == nil && oneErr != nil && errClass(oneErr) == "ErrBadFrame"
+		if endErr == io.EOF && !uncheckedFrame && (oneErr != nil || srcErr != io.EOF || !bytes.Equal(flat, one)) {
 			fs = append(fs, Failure{Kind: "oracle", Key: "armor-stream-clean-end-on-bad-input", Desc: fmt.Sprintf("clean end after %d bytes although the one-shot form gives %d bytes, %v and the source ends with %v", len(flat), len(one), oneErr, srcErr)})
 		}
 		if srcErr == io.EOF && oneErr == nil && endErr != nil && endErr != io.EOF {
